@@ -104,6 +104,9 @@ def _run(name, spec, extra=None):
     _trace(("exec", name, spec.get("id"), extra))
     total = 0
     for call in spec.get("calls", []):
+        if "resource" in call:
+            file_resource(call["resource"])
+            continue
         fn = _apply_mods(FUNCS[call["fn"]], call)
         try:
             if "batch" in call:
